@@ -68,4 +68,10 @@ theorem scanPruned_eq {fs : List Frac} (hs : ∀ f, f ∈ fs → Sound f) {qf qt
   rw [this] at hp
   exact absurd hp (by simp)
 
+theorem mem_flatten_map_fst {bulks : List (List (Nat × Nat))} {id : Nat × Nat} (h : id ∈ bulks.flatten) :
+    id.1 ∈ (bulks.map (·.map Prod.fst)).flatten := by
+  rw [List.mem_flatten] at h ⊢
+  rcases h with ⟨b, hb, hid⟩
+  exact ⟨b.map Prod.fst, List.mem_map_of_mem hb, List.mem_map_of_mem hid⟩
+
 end SV.Pruning
